@@ -221,7 +221,8 @@ fn main() {
     }
     install_quiet_panic_hook();
     let t0 = Instant::now();
-    let out = (spec.run)(&p);
+    let mut out = (spec.run)(&p);
+    out.ev.distinct.compact();
     let wall = t0.elapsed().as_secs_f64();
 
     for (sig, n) in &out.ev.known_hits {
